@@ -41,6 +41,18 @@ fn rl_queries(g: &mut Gen, name: &str, runs: &[(u64, u64)], len: u64, samples: u
     zr.sort(); zr.dedup();
     for r in &zr { lines.push(format!("rl {} select0 {}", name, r)); }
     lines.push(format!("rl {} runs", name));
+    // positioned iterators continue with consecutive items across run and block boundaries
+    let stepi = std::cmp::max(1, runs.len() / 12);
+    for (a, l) in runs.iter().step_by(stepi) {
+        // (default `nth` walks item by item: keep the skips small)
+        let (k1, k2) = (std::cmp::min(*l, 40), std::cmp::min(l.saturating_mul(2).saturating_add(1), 90));
+        for x in [*a, a + (l - 1), a.saturating_add(*l), a.saturating_sub(1)] {
+            lines.push(format!("rl {} it pred {} : n n N{} n l N{} n n", name, x, k1, k2));
+            lines.push(format!("rl {} it succ {} : n n N{} n l N{} n n", name, x, k1, k2));
+        }
+    }
+    for r in ranks.iter().step_by(std::cmp::max(1, ranks.len() / 8)) { lines.push(format!("rl {} it sel {} : n N5 n l N70 n", name, r)); }
+    for r in zr.iter().step_by(std::cmp::max(1, zr.len() / 8)) { lines.push(format!("rl {} it sel0 {} : n N5 n l N70 n", name, r)); }
 }
 
 /// runs with gaps / lengths drawn from the given magnitudes
